@@ -149,7 +149,7 @@ func c07R1R2(c *Ctx, p *Prog) {
 			}
 			switch {
 			case (bo.Op == token.GTR && ce.True) || (bo.Op == token.LEQ && !ce.True):
-				if rootsAtParam(bo.Y, fn, "alpha") {
+				if rootsAtParam(bo.Y, fn, scoreParam(fn, 0)) {
 					gtAlpha, val = true, bo.X
 				}
 			}
@@ -159,7 +159,7 @@ func c07R1R2(c *Ctx, p *Prog) {
 			if !ok || val == nil || bo.X != val {
 				continue
 			}
-			if ((bo.Op == token.GEQ && !ce.True) || (bo.Op == token.LSS && ce.True)) && rootsAtParam(bo.Y, fn, "beta") {
+			if ((bo.Op == token.GEQ && !ce.True) || (bo.Op == token.LSS && ce.True)) && rootsAtParam(bo.Y, fn, scoreParam(fn, 1)) {
 				ltBeta = true
 			}
 		}
@@ -297,11 +297,7 @@ func c07R3R4(c *Ctx, p *Prog) {
 		return
 	}
 	// result allocs by name
-	allocs := map[string]*ssa.Alloc{}
-	for _, l := range fn.Locals {
-		allocs[l.Comment] = l
-	}
-	mv, pd := allocs["move"], allocs["ponder"]
+	mv, pd := namedResult(fn, 1), namedResult(fn, 2)
 	if mv == nil || pd == nil {
 		c.Undec(r3, "iterativeDeepen#results", fn.Pos(), "named results move/ponder not found as locals")
 		return
@@ -597,4 +593,18 @@ func reachableBlocks(fn *ssa.Function) map[int]bool {
 	}
 	walk(fn.Blocks[0])
 	return seen
+}
+
+// scoreParam names the i-th parameter of type Score (alpha is the first, beta the second).
+func scoreParam(fn *ssa.Function, i int) string {
+	k := 0
+	for _, pr := range fn.Params {
+		if n, ok := types.Unalias(pr.Type()).(*types.Named); ok && n.Obj().Name() == "Score" {
+			if k == i {
+				return pr.Name()
+			}
+			k++
+		}
+	}
+	return "?"
 }
